@@ -106,4 +106,225 @@ def save (r : Raw) : Bytes := toBytes r
 def load (d : Read.Cpm.Dpb) (b : Bytes) : Raw := ofBytes (blockSize d) b
 end Cpm
 
+/-! ## Identification: which file system `create_fs_from_bytestream` finds in the saved bytes
+
+`lib.rs::create_fs_from_bytestream(data, maybe_ext)` tries the container formats in a fixed order (IMD, WOZ1, WOZ2,
+2MG, TD0, NIB, **D13, DO, PO, IMG**), each only if the extension hint is empty or among its extensions; for every
+container whose `from_bytes` accepts the data, `try_img` asks the file systems in the order **DOS 3.x, ProDOS, Pascal,
+FAT**, MS-DOS 1.x, CP/M (nine parameter blocks) and the first test that accepts decides.  Transcribed here: the four
+flat containers (size tests of `from_bytes`, the block/sector reads the tests perform) and the first four tests.  The
+answer `later` stands for "none of the four accepted": the chain then goes on to the MS-DOS 1.x and CP/M tests, which
+are not transcribed.  The formats with a magic number or an own size (IMD, WOZ, 2MG, TD0, NIB) precede the flat ones
+in the chain when no hint is given; that they refuse the bytes of a flat image is a hypothesis of the no-hint theorems.
+
+| Rust | Lean |
+|---|---|
+| `D13/DO/PO/Img::from_bytes` (size tests, `tracks`, `kind`) | `d13Accepts`, `doAccepts`, `poAccepts`, `imgGeo` |
+| `read_block(Block::D13/DO/PO)`, `read_sector(0,0,1)`, `track_count()` of the four containers | `probeD13`, `probeDO`, `probePO`, `probeIMG` |
+| `dos3x::Disk::test_img` (`test_img_13`, `test_img_16`) | `dosTest` |
+| `prodos::Disk::test_img` | `prodosTest` |
+| `pascal::Disk::test_img` (on `get_directory`) | `pascalTest` |
+| `fat::Disk::test_img` = `BootSector::verify` + `BPBFoundation::verify` | `fatTest` |
+| `try_img` (first four tests) | `tryImg` |
+| the extension filter and the container order | `Hint`, `candidates`, `identify` |
+-/
+namespace Ident
+
+/-- what `try_img` can answer; `later` = none of the first four tests accepted -/
+inductive FsId where
+  | dos32 | dos33 | prodos | pascal | fat | later
+  deriving DecidableEq, Repr
+
+/-- what the four tests read from a container -/
+structure Probe where
+  /-- `img.track_count()` -/
+  trackCount : Nat
+  /-- `read_block(Block::D13([t,s]))` -/
+  d13Sector : Nat → Nat → Option Bytes
+  /-- `read_block(Block::DO([t,s]))` -/
+  doSector : Nat → Nat → Option Bytes
+  /-- the image as ProDOS blocks, `read_block(Block::PO(i))` = unit `i` (no units: the container refuses such blocks) -/
+  poBlocks : Raw
+  /-- `read_sector(0,0,1)` -/
+  bootSector : Option Bytes
+
+def bytesAt (b : Bytes) (off len : Nat) : Option Bytes := if off + len ≤ b.length then some ((b.drop off).take len) else none
+
+/-! ### the flat containers -/
+
+/-- `D13::from_bytes`: whole 13-sector tracks, at least 35 -/
+def d13Accepts (b : Bytes) : Bool := decide (b.length % 3328 = 0) && decide (35 ≤ b.length / 3328)
+/-- `DO::from_bytes`: whole blocks, 280 … 65535 of them, whole 16-sector tracks -/
+def doAccepts (b : Bytes) : Bool :=
+  decide (b.length % 512 = 0) && decide (b.length / 512 ≤ 65535) && decide (280 ≤ b.length / 512) && decide (b.length / 512 % 8 = 0)
+/-- `PO::from_bytes` -/
+def poAccepts (b : Bytes) : Bool := decide (b.length % 512 = 0) && decide (b.length / 512 ≤ 65535) && decide (280 ≤ b.length / 512)
+/-- `Img::from_bytes`: the size must be that of a known layout → (sector size, cylinders, heads, sectors) -/
+def imgGeo (len : Nat) : Option (Nat × Nat × Nat × Nat) :=
+  if len = 256256 then some (128, 77, 1, 26) else if len = 1261568 then some (1024, 77, 2, 8)
+  else if len = 163840 then some (512, 40, 1, 8) else if len = 184320 then some (512, 40, 1, 9)
+  else if len = 327680 then some (512, 40, 2, 8) else if len = 368640 then some (512, 40, 2, 9)
+  else if len = 655360 then some (512, 80, 2, 8) else if len = 1228800 then some (512, 80, 2, 15)
+  else if len = 737280 then some (512, 80, 2, 9) else if len = 1474560 then some (512, 80, 2, 18)
+  else if len = 1720320 then some (512, 80, 2, 21) else if len = 1763328 then some (512, 82, 2, 21)
+  else if len = 2949120 then some (512, 80, 2, 36) else none
+
+def noBlocks : Raw := { unitLen := 512, units := #[] }
+
+def probeD13 (b : Bytes) : Probe :=
+  { trackCount := b.length / 3328,
+    d13Sector := fun t s => if t < b.length / 3328 ∧ s < 13 then bytesAt b (t * 3328 + s * 256) 256 else none,
+    doSector := fun _ _ => none,
+    poBlocks := noBlocks,
+    -- `read_sector(0,0,1)`: physical sector 1 of track 0, 256 bytes
+    bootSector := bytesAt b 256 256 }
+
+/-- `ts_from_prodos_block` (5.25 inch): the two DOS logical sectors of a block -/
+def doBlock (b : Bytes) (i : Nat) : Bytes :=
+  let t := i / 8
+  let s1 := [0, 13, 11, 9, 7, 5, 3, 1].getD (i % 8) 0
+  let s2 := [14, 12, 10, 8, 6, 4, 2, 15].getD (i % 8) 0
+  ((b.drop ((t * 16 + s1) * 256)).take 256) ++ ((b.drop ((t * 16 + s2) * 256)).take 256)
+
+def probeDO (b : Bytes) : Probe :=
+  let tracks := b.length / 512 / 8
+  { trackCount := tracks,
+    d13Sector := fun _ _ => none,
+    doSector := fun t s => if t < tracks ∧ s < 16 then bytesAt b ((t * 16 + s) * 256) 256 else none,
+    -- `kind` is `A2_DOS33_KIND` for 35 tracks, `Unknown` otherwise (then ProDOS blocks cannot be located)
+    poBlocks := if tracks = 35 then { unitLen := 512, units := ((List.range 280).map (doBlock b)).toArray } else noBlocks,
+    -- physical sector 1 = logical sector 7
+    bootSector := bytesAt b (7 * 256) 256 }
+
+def probePO (b : Bytes) : Probe :=
+  { trackCount := b.length / 512 / 8,
+    d13Sector := fun _ _ => none,
+    doSector := fun _ _ => none,
+    poBlocks := ofBytes 512 b,
+    -- "logical disk cannot access sectors"
+    bootSector := none }
+
+def probeIMG (b : Bytes) (geo : Nat × Nat × Nat × Nat) : Probe :=
+  { trackCount := geo.2.1 * geo.2.2.1,
+    d13Sector := fun _ _ => none,
+    doSector := fun _ _ => none,
+    poBlocks := noBlocks,
+    bootSector := bytesAt b 0 geo.1 }
+
+/-! ### the tests -/
+
+/-- the common part of `test_img_13` / `test_img_16` on the VTOC sector `dat`; `v13` selects the version test -/
+def vtocTest (dat : Bytes) (slen : Nat) (v13 : Bool) : Bool :=
+  decide (196 ≤ dat.length) &&
+  (if v13 then decide (dat.getD 3 0 ≤ 2) else decide (3 ≤ dat.getD 3 0)) &&
+  decide (1 ≤ dat.getD 6 0) && decide (dat.getD 6 0 ≤ 254) &&
+  decide (dat.getD 1 0 = 17) && decide (dat.getD 2 0 = slen - 1) &&
+  decide (dat.getD 0x36 0 = 0) && decide (dat.getD 0x37 0 = 1) && decide (dat.getD 0x35 0 = slen) && decide (dat.getD 0x34 0 = 35)
+
+/-- `dos3x::Disk::test_img` -/
+def dosTest (p : Probe) : Option FsId :=
+  if p.trackCount ≠ 35 then none
+  else if (match p.d13Sector 17 0 with | some dat => vtocTest dat 13 true | none => false) then some .dos32
+  else if (match p.doSector 17 0 with | some dat => vtocTest dat 16 false | none => false) then some .dos33
+  else none
+
+def isUpperOrDot (c : Nat) : Bool := (65 ≤ c && c ≤ 90) || c == 46
+def isNameChar (c : Nat) : Bool := isUpperOrDot c || (48 ≤ c && c ≤ 57)
+
+/-- `prodos::Disk::test_img` on block 2 -/
+def prodosTest (p : Probe) : Bool :=
+  match p.poBlocks.units[2]? with
+  | none => false
+  | some buf =>
+    decide (511 ≤ buf.length) &&
+    decide (280 ≤ le16 buf 0x29) &&
+    decide (buf.getD 0x23 0 = 0x27) && (decide (buf.getD 0x24 0 = 0x0D) || decide (buf.getD 0x24 0 = 0x0C)) &&
+    decide (le16 buf 0 = 0) && decide (le16 buf 2 = 3) && decide (buf.getD 4 0 / 16 = 15) &&
+    isUpperOrDot (buf.getD 5 0) &&
+    (List.range' 1 (buf.getD 4 0 % 16 - 1)).all (fun i => isNameChar (buf.getD (5 + i) 0))
+
+def printable (c : Nat) : Bool := 32 ≤ c && c ≤ 126
+
+/-- `pascal::Disk::test_img`: `get_directory` succeeds and the header and every entry in use look right -/
+def pascalTest (p : Probe) : Bool :=
+  match Fs.Pascal.getDirectory p.poBlocks with
+  | .error _ => false
+  | .ok dir =>
+    let h := dir.header
+    let end_ := Fs.Pascal.Hdr.endBlock h
+    let tot := Fs.Pascal.Hdr.totalBlocks h
+    decide (Fs.Pascal.Hdr.beginBlock h = 0) && decide (2 < end_) && decide (end_ ≤ 20) &&
+    decide (1 ≤ Fs.Pascal.Hdr.nameLen h) && decide (Fs.Pascal.Hdr.nameLen h ≤ 7) &&
+    decide (le16 h 4 = 0) &&
+    (List.range (Fs.Pascal.Hdr.nameLen h)).all (fun i => printable (h.getD (7 + i) 0)) &&
+    (dir.entries.take dir.numFiles).all (fun e =>
+      let eb := Fs.Pascal.Entry.beginBlock e
+      let ee := Fs.Pascal.Entry.endBlock e
+      decide (eb = 0) ||
+        (decide (end_ ≤ eb) && decide (eb < ee) && decide (ee ≤ tot) &&
+         decide (1 ≤ Fs.Pascal.Entry.nameLen e) && decide (Fs.Pascal.Entry.nameLen e ≤ 15) &&
+         (List.range (Fs.Pascal.Entry.nameLen e)).all (fun j => printable (e.getD (7 + j) 0))))
+
+/-- `BootSector::verify` (+ `BPBFoundation::verify`) -/
+def fatTest (p : Probe) : Bool :=
+  match p.bootSector with
+  | none => false
+  | some s =>
+    decide (512 ≤ s.length) &&
+    decide (s.getD 510 0 = 0x55) && decide (s.getD 511 0 = 0xAA) &&
+    (let b := Fs.Fat.Bpb.ofBoot s
+     [512, 1024, 2048, 4096].contains b.bps && [1, 2, 4, 8, 16, 32, 64, 128].contains b.spc &&
+     decide (b.rsvd ≠ 0) && decide (b.nfat ≠ 0) &&
+     decide ((b.rootEnt0 + 256 * b.rootEnt1) * 32 % b.bps = 0) &&
+     !(decide (b.tot16 = 0) && decide (b.tot32 = 0)) &&
+     decide (b.fatSecs ≠ 0) &&
+     decide (b.rsvd + b.nfat * b.fatSecs + b.rootDirSecs < b.totSec))
+
+/-- `try_img`, the first four tests in order -/
+def tryImg (p : Probe) : FsId :=
+  match dosTest p with
+  | some f => f
+  | none => if prodosTest p then .prodos else if pascalTest p then .pascal else if fatTest p then .fat else .later
+
+/-! ### the chain -/
+
+/-- the extension hints that select flat containers (`dsk` is an extension of DO, PO and IMG; no hint = every format) -/
+inductive Hint where
+  | none | d13 | do_ | po | dsk | img
+  deriving DecidableEq, Repr
+
+inductive Cont where
+  | d13 | do_ | po | img
+  deriving DecidableEq, Repr
+
+/-- the flat containers tried for a hint, in the order of `create_fs_from_bytestream` -/
+def candidates : Hint → List Cont
+  | .none => [.d13, .do_, .po, .img]
+  | .d13 => [.d13]
+  | .do_ => [.do_]
+  | .po => [.po]
+  | .dsk => [.do_, .po, .img]
+  | .img => [.img]
+
+/-- `from_bytes` of one container: the probe, if the bytes are accepted -/
+def probeOf (b : Bytes) : Cont → Option Probe
+  | .d13 => if d13Accepts b then some (probeD13 b) else none
+  | .do_ => if doAccepts b then some (probeDO b) else none
+  | .po => if poAccepts b then some (probePO b) else none
+  | .img => (imgGeo b.length).map (probeIMG b)
+
+/-- the first container that accepts the bytes decides — unless none of its four tests accepts (`later`: the
+untranscribed tests then decide whether the chain goes on).  `none` = no flat container accepts the bytes. -/
+def identifyIn (b : Bytes) : List Cont → Option FsId
+  | [] => none
+  | c :: cs =>
+    match probeOf b c with
+    | some p => some (tryImg p)
+    | none => identifyIn b cs
+
+/-- the file system found in the bytes of a flat image (the formats with a magic number are assumed to refuse them) -/
+def identify (h : Hint) (b : Bytes) : Option FsId := identifyIn b (candidates h)
+
+end Ident
+
 end A2Verif.Reload
